@@ -20,6 +20,11 @@ impl Duration {
     pub fn mul_f32(self, f: f32) -> (r: Duration) ensures r == dur_mul_f32(self, f) { unimplemented!() }
     #[verifier::external_body]
     pub fn is_zero(&self) -> (r: bool) ensures r == (self.ns@ == 0) { unimplemented!() }
+    // Ord::min / Ord::max on durations
+    #[verifier::external_body]
+    pub fn min(self, o: Duration) -> (r: Duration) ensures r.ns@ == (if self.ns@ <= o.ns@ { self.ns@ } else { o.ns@ }) { unimplemented!() }
+    #[verifier::external_body]
+    pub fn max(self, o: Duration) -> (r: Duration) ensures r.ns@ == (if self.ns@ >= o.ns@ { self.ns@ } else { o.ns@ }) { unimplemented!() }
 }
 // single-precision scaling has no theory in the installed Verus/Z3: uninterpreted (C15 residual)
 pub uninterp spec fn dur_mul_f32(d: Duration, f: f32) -> Duration;
